@@ -190,10 +190,49 @@ def generate(rng, quick, c12=False):
         del c["enc"]
         if c["fn"] == "read_hybrid":
             c["length"] = 0 if c["prefixed"] else len(o)
+        if c["fn"] == "delta_unpack":
+            # classify by the widths the spec encoder really chose (wrapping deltas can need more bits than intended)
+            mw = _delta_max_width(bytes(o))
+            c["meta"]["max_width"] = mw
+            if mw >= 29:
+                c["stream"] = "confirm"
     return cases
 
 
 EXTRA_GENERATORS = []      # filled by later stages (delta, encoders, byte arrays, booleans)
+
+
+def _rd_uleb(b, pos):
+    v = shift = 0
+    while True:
+        x = b[pos]
+        pos += 1
+        v |= (x & 127) << shift
+        shift += 7
+        if not x & 128:
+            return v, pos
+
+
+def _delta_max_width(b):
+    """largest width byte among the miniblocks that carry deltas (classification only)"""
+    bs, pos = _rd_uleb(b, 0)
+    mpb, pos = _rd_uleb(b, pos)
+    total, pos = _rd_uleb(b, pos)
+    _, pos = _rd_uleb(b, pos)
+    vpm = bs // mpb
+    rem = total - 1
+    mw = 0
+    while rem > 0:
+        _, pos = _rd_uleb(b, pos)
+        ws = b[pos:pos + mpb]
+        pos += mpb
+        for w in ws:
+            if rem <= 0:
+                break
+            mw = max(mw, w)
+            pos += vpm * w // 8
+            rem -= vpm
+    return mw
 
 
 def _uleb_py(n):
@@ -557,7 +596,7 @@ def _wrap(v, bits):
     return v - (1 << bits) if v >> (bits - 1) else v
 
 
-def _delta_values(rng, bits, count, vpm, w_of_mini, pattern):
+def _delta_values(rng, bits, count, vpm, w_of_mini, pattern, mpb=4):
     """values whose miniblock number m needs exactly width w_of_mini(m) (min_delta is the block's chosen offset)"""
     if count == 0:
         return [], []
@@ -571,7 +610,7 @@ def _delta_values(rng, bits, count, vpm, w_of_mini, pattern):
     while pos < nd:
         n = min(vpm, nd - pos)
         w = w_of_mini(m)
-        if md_block is None or (m * vpm) % (vpm * 4) == 0:
+        if md_block is None or m % mpb == 0:
             md_block = rng.choice([0, -3, 7, -(1 << 20)])
         mk = (1 << w) - 1
         if pattern == "zeros" or w == 0:
@@ -583,7 +622,7 @@ def _delta_values(rng, bits, count, vpm, w_of_mini, pattern):
         else:
             adj = [rng.randrange(mk + 1) for _ in range(n)]
         if w:
-            adj[0] = 0 if (pos == 0 or n > 1 and m % 4 == 0) else adj[0]
+            adj[0] = 0 if (pos == 0 or n > 1 and m % mpb == 0) else adj[0]
             adj[-1 if n > 1 else 0] |= 1 << (w - 1)          # the width really is w
         widths.append(max((a.bit_length() for a in adj), default=0))
         for a in adj:
@@ -608,7 +647,7 @@ def gen_delta(rng, quick):
                     if pat != "random":
                         counts = counts[:1]
                     for count in counts:
-                        vals, widths = _delta_values(rng, bits, count, vpm, lambda m: w, pat)
+                        vals, widths = _delta_values(rng, bits, count, vpm, lambda m: w, pat, mpb)
                         mw = max(widths) if widths else 0
                         cases.append({"fn": "delta_unpack", "longval": longval, "cap": count * isz,
                                       "enc": ["delta_enc", bits, bs, mpb, vals], "trail": True,
@@ -618,7 +657,7 @@ def gen_delta(rng, quick):
             # counts around the block structure, mixed widths per miniblock, all capacities classes
             for count in ([0, 1, 2, 5, vpm, vpm + 1, bs, bs + 1, bs + 2] if quick else list(range(0, 12)) + [vpm - 1, vpm, vpm + 1, vpm + 2, 2 * vpm + 1, bs - 1, bs, bs + 1, bs + 2, 2 * bs, 2 * bs + 1, 3 * bs + 5]):
                 wsel = [rng.choice([0, 1, 3, 8, 13, 24, 28]) for _ in range(40)]
-                vals, widths = _delta_values(rng, bits, count, vpm, lambda m: wsel[m % 40], "random")
+                vals, widths = _delta_values(rng, bits, count, vpm, lambda m: wsel[m % 40], "random", mpb)
                 mw = max(widths) if widths else 0
                 for cc, cap in (("exact", count * isz), ("long", (count + 1) * isz), ("short", max(count - 1, 0) * isz),
                                 ("odd", count * isz + isz - 1), ("none", 0), ("short", isz)):
